@@ -45,3 +45,289 @@ Proof. exact read_loop_handler_error_resets. Qed.
 Check c11_offline_releases.
 Print Assumptions c11_offline_releases.
 
+
+(* ---- correlation and completion in a closed world: client + broker + one FIFO connection ---- *)
+(* Additions for coq/props/C11.v -- correlation and completion of Subscribe / Unsubscribe /
+   Ping in a closed world (callers + client + FIFO connection + conforming or hostile broker,
+   theories/ReqWorld.v).  Needs, next to the existing imports of props/C11.v:
+     From Coq Require Import ZArith List.
+     From RecordUpdate Require Import RecordUpdate.
+     From MQ Require Import InboundProofs TxIds ReqWorld.
+   (standalone here so that it can be compiled on its own:
+     coqc -Q theories MQ -Q gen MQG -Q props MQP /verif/work/prover-req-world/C11_additions.v) *)
+From Coq Require Import ZArith List.
+From RecordUpdate Require Import RecordUpdate.
+From MQ Require Import Session InboundProofs TxIds ReqWorld.
+Import ListNotations.
+Local Open Scope N_scope.
+
+(* ---- the tie: the slim client's functions are Session.v's, seen through rslim ---- *)
+
+(* on_suback on a body of at least two bytes = sl_suback on (packet id, return codes) *)
+Theorem c11_tie_on_suback : forall c body, 2 <= len body ->
+  (rslim (fst (on_suback c body)), snd (on_suback c body)) = sl_suback (rslim c) (u16 body) (skipn 2 body).
+Proof. exact rslim_on_suback. Qed.
+Print Assumptions c11_tie_on_suback.
+
+Theorem c11_tie_on_unsuback : forall c body, len body = 2 ->
+  (rslim (fst (on_unsuback c body)), snd (on_unsuback c body)) = sl_unsuback (rslim c) (u16 body).
+Proof. exact rslim_on_unsuback. Qed.
+Print Assumptions c11_tie_on_unsuback.
+
+Theorem c11_tie_on_pingresp : forall c,
+  (rslim (fst (on_pingresp c [])), snd (on_pingresp c [])) = sl_pingresp (rslim c).
+Proof. exact rslim_on_pingresp. Qed.
+Print Assumptions c11_tie_on_pingresp.
+
+(* toOffline / termCallbacks release: break_pending *)
+Theorem c11_tie_break_pending : forall c, rslim (break_pending c) = q_break (rslim c).
+Proof. exact rslim_break_pending. Qed.
+Print Assumptions c11_tie_break_pending.
+
+Theorem c11_tie_term_callbacks : forall c, rslim (term_callbacks c) = q_break (rslim c).
+Proof. exact rslim_term_callbacks. Qed.
+Print Assumptions c11_tie_term_callbacks.
+
+Theorem c11_tie_to_offline : forall c w c' w',
+  to_offline c w = Some (c', w') -> rslim c' = sl_offline (rslim c).
+Proof. exact rslim_to_offline. Qed.
+Print Assumptions c11_tie_to_offline.
+
+Theorem c11_tie_release_locked : forall c e, rslim (release_locked c e) = q_release_locked (rslim c) e.
+Proof. exact rslim_release_locked. Qed.
+Print Assumptions c11_tie_release_locked.
+
+(* Subscribe / Unsubscribe / Ping / quit / Close / Disconnect / connect, every client, every world *)
+Theorem c11_tie_op_subscribe : forall c sub level fs,
+  sat (op_subscribe c sub level fs)
+      (fun p => exists wr, (rslim (fst p), snd p) = sl_subscribe (rslim c) sub fs wr).
+Proof. exact rslim_op_subscribe. Qed.
+Print Assumptions c11_tie_op_subscribe.
+
+Theorem c11_tie_op_ping : forall c,
+  sat (op_ping c) (fun p => exists wr, (rslim (fst p), snd p) = sl_ping (rslim c) wr).
+Proof. exact rslim_op_ping. Qed.
+Print Assumptions c11_tie_op_ping.
+
+Theorem c11_tie_op_quit : forall c rid, sat (op_quit c rid) (fun p => rslim (fst p) = sl_quit (rslim c) rid).
+Proof. exact rslim_op_quit. Qed.
+Print Assumptions c11_tie_op_quit.
+
+Theorem c11_tie_op_close : forall c, sat (op_close c) (fun p => rslim (fst p) = sl_close (rslim c)).
+Proof. exact rslim_op_close. Qed.
+Print Assumptions c11_tie_op_close.
+
+Theorem c11_tie_op_disconnect : forall c, sat (op_disconnect c) (fun p => rslim (fst p) = sl_close (rslim c)).
+Proof. exact rslim_op_disconnect. Qed.
+Print Assumptions c11_tie_op_disconnect.
+
+Theorem c11_tie_connect : forall c, sat (connect c) (connect_post c).
+Proof. exact rslim_connect. Qed.
+Print Assumptions c11_tie_connect.
+
+(* ---- the invariant ---- *)
+
+Theorem c11_world_invariant : forall h w, rreach h w -> RInv w.
+Proof. exact rworld_inv. Qed.
+Print Assumptions c11_world_invariant.
+
+Theorem c11_world_invariant_conforming : forall w, rreach false w -> CInv w.
+Proof. exact conforming_inv. Qed.
+Print Assumptions c11_world_invariant_conforming.
+
+(* ---- (a) correlation ---- *)
+
+(* any broker: on SUBACK pid codes nobody returns, or exactly the holder of pid returns, with
+   the failed filters of ITS OWN Subscribe call (ErrBreak + reset on a count mismatch); the
+   identifier is free afterwards *)
+Theorem c11_suback_correlation : forall h w pid codes, rreach h w ->
+  q_done (fst (sl_suback (r_cl w) pid codes)) = q_done (r_cl w)
+  \/ exists rid fs n,
+       In (pid, rid, Some fs) (q_txs (r_cl w)) /\ In (rid, PkSub pid) (q_parked (r_cl w)) /\
+       In (rid, CallTx (Some fs) n) (r_calls w) /\ pid = cand sub_space n /\
+       (forall rid' k', In (pid, rid', k') (q_txs (r_cl w)) -> rid' = rid) /\
+       ~ In pid (qpids (fst (sl_suback (r_cl w) pid codes))) /\
+       ~ In rid (prids (fst (sl_suback (r_cl w) pid codes))) /\
+       ((length fs = length codes /\ snd (sl_suback (r_cl w) pid codes) = HOk /\
+         q_done (fst (sl_suback (r_cl w) pid codes))
+         = (rid, ans_err (failed_filters fs codes), failed_filters fs codes) :: q_done (r_cl w))
+        \/ (length fs <> length codes /\ snd (sl_suback (r_cl w) pid codes) = HErr E_proto /\
+            q_done (fst (sl_suback (r_cl w) pid codes)) = (rid, E_break, []) :: q_done (r_cl w))).
+Proof. exact suback_correlation. Qed.
+Print Assumptions c11_suback_correlation.
+
+Theorem c11_unsuback_correlation : forall h w pid, rreach h w ->
+  q_done (fst (sl_unsuback (r_cl w) pid)) = q_done (r_cl w)
+  \/ exists rid n,
+       In (pid, rid, None) (q_txs (r_cl w)) /\ In (rid, PkUnsub pid) (q_parked (r_cl w)) /\
+       In (rid, CallTx None n) (r_calls w) /\ pid = cand unsub_space n /\
+       (forall rid' k', In (pid, rid', k') (q_txs (r_cl w)) -> rid' = rid) /\
+       ~ In pid (qpids (fst (sl_unsuback (r_cl w) pid))) /\
+       ~ In rid (prids (fst (sl_unsuback (r_cl w) pid))) /\
+       snd (sl_unsuback (r_cl w) pid) = HOk /\
+       q_done (fst (sl_unsuback (r_cl w) pid)) = (rid, E_nil, []) :: q_done (r_cl w).
+Proof. exact unsuback_correlation. Qed.
+Print Assumptions c11_unsuback_correlation.
+
+(* no response completes two requests *)
+Theorem c11_one_return_per_packet : forall h w d, rreach h w ->
+  exists new, q_done (fst (sl_dispatch (r_cl w) d)) = new ++ q_done (r_cl w) /\ (length new <= 1)%nat.
+Proof. exact one_return_per_packet. Qed.
+Print Assumptions c11_one_return_per_packet.
+
+(* any broker: a genuine answer makes another request return only if its own had returned before *)
+Theorem c11_answer_own_or_late : forall h w d rest u, rreach h w ->
+  r_b2c w = d :: rest -> dorg d = Some u ->
+  forall x, In x (q_done (fst (sl_dispatch (r_cl w) d))) -> ~ In x (q_done (r_cl w)) ->
+    rid3 x = utag u \/ In (utag u) (drids (r_cl w)).
+Proof. exact answer_own_or_late. Qed.
+Print Assumptions c11_answer_own_or_late.
+
+(* ... and only after the identifier counter went round its 13 bits *)
+Theorem c11_reuse_needs_wrap : forall h w rid0 pid k0 rid1 k1, rreach h w ->
+  In (UReq rid0 pid k0) (inflight w) -> In (pid, rid1, k1) (q_txs (r_cl w)) -> rid1 <> rid0 ->
+  exists n0 n1, In (rid0, CallTx k0 n0) (r_calls w) /\ In (rid1, CallTx k1 n1) (r_calls w) /\
+    n0 < q_txn (r_cl w) /\ n1 < q_txn (r_cl w) /\ (n0 + 8192 <= n1 \/ n1 + 8192 <= n0).
+Proof. exact reuse_needs_wrap. Qed.
+Print Assumptions c11_reuse_needs_wrap.
+
+(* conforming broker, nobody abandoned by quit so far: exact correlation, no protocol error *)
+Theorem c11_conforming_exact : forall w d rest, rreach false w -> no_abandon (r_cl w) -> r_b2c w = d :: rest ->
+  exists u, dorg d = Some u /\ live (r_cl w) u /\ snd (sl_dispatch (r_cl w) d) = HOk /\
+    exists e f, q_done (fst (sl_dispatch (r_cl w) d)) = (utag u, e, f) :: q_done (r_cl w).
+Proof. exact conforming_exact. Qed.
+Print Assumptions c11_conforming_exact.
+
+Theorem c11_conforming_suback : forall w pid codes u rest, rreach false w -> no_abandon (r_cl w) ->
+  r_b2c w = DSuback pid codes (Some u) :: rest ->
+  exists rid fs n, u = UReq rid pid (Some fs) /\ In (rid, CallTx (Some fs) n) (r_calls w) /\
+    length fs = length codes /\ snd (sl_suback (r_cl w) pid codes) = HOk /\
+    q_done (fst (sl_suback (r_cl w) pid codes))
+    = (rid, ans_err (failed_filters fs codes), failed_filters fs codes) :: q_done (r_cl w).
+Proof. exact conforming_suback. Qed.
+Print Assumptions c11_conforming_suback.
+
+Theorem c11_conforming_inflight_live : forall w, rreach false w -> no_abandon (r_cl w) ->
+  (forall d, In d (r_b2c w) -> dorg d <> None) /\ forall u, In u (inflight w) -> live (r_cl w) u.
+Proof. exact conforming_inflight_live. Qed.
+Print Assumptions c11_conforming_inflight_live.
+
+(* hostile broker: the client cannot tell a forgery or duplicate from the genuine answer *)
+Theorem c11_client_cannot_distinguish : forall q d d',
+  match d, d' with
+  | DSuback p c _, DSuback p' c' _ => p = p' /\ c = c'
+  | DUnsuback p _, DUnsuback p' _ => p = p'
+  | DPong _, DPong _ => True
+  | _, _ => False
+  end -> sl_dispatch q d = sl_dispatch q d'.
+Proof. exact client_cannot_distinguish. Qed.
+Print Assumptions c11_client_cannot_distinguish.
+
+(* the plain reading of "no response is handed to another caller" is false of the model:
+   conforming broker, FIFO connection, one quit, identifier reuse after 8192 assignments *)
+Theorem c11_response_handed_to_another_caller :
+  exists w d rest u x,
+    rreach false w /\ r_rd w = true /\ r_b2c w = d :: rest /\ dorg d = Some u /\
+    In x (q_done (fst (sl_dispatch (r_cl w) d))) /\ ~ In x (q_done (r_cl w)) /\
+    rid3 x <> utag u /\ In (utag u, E_abandoned, []) (q_done (r_cl w)).
+Proof. exact response_handed_to_another_caller. Qed.
+Print Assumptions c11_response_handed_to_another_caller.
+
+(* ---- (b) at most once, documented outcomes ---- *)
+
+Theorem c11_returns_at_most_once : forall h w, rreach h w ->
+  NoDup (drids (r_cl w)) /\
+  (forall rid, In rid (prids (r_cl w)) -> ~ In rid (drids (r_cl w))) /\
+  (forall rid, rid < q_nextr (r_cl w) -> In rid (prids (r_cl w)) \/ In rid (drids (r_cl w))) /\
+  (forall x, In x (q_done (r_cl w)) -> outcome_ok (r_calls w) x).
+Proof. exact returns_at_most_once. Qed.
+Print Assumptions c11_returns_at_most_once.
+
+Theorem c11_outcome_unique : forall h w rid e f e' f', rreach h w ->
+  In (rid, e, f) (q_done (r_cl w)) -> In (rid, e', f') (q_done (r_cl w)) -> e = e' /\ f = f'.
+Proof. exact outcome_unique. Qed.
+Print Assumptions c11_outcome_unique.
+
+Theorem c11_log_append_only : forall w a w', RInv w -> rexec w a = Some w' ->
+  exists new, q_done (r_cl w') = new ++ q_done (r_cl w).
+Proof. exact log_append_only. Qed.
+Print Assumptions c11_log_append_only.
+
+(* ---- (c) no request waits for ever under a good suffix ---- *)
+
+Theorem c11_good_step_measure : forall w a w', RInv w -> rexec w a = Some w' -> r_good w a = true ->
+  (rmu w' < rmu w)%nat.
+Proof. exact good_step_measure. Qed.
+Print Assumptions c11_good_step_measure.
+
+Theorem c11_good_run_bound : forall w n w', RInv w -> grun w n w' -> (n + rmu w' <= rmu w)%nat.
+Proof. exact good_run_bound. Qed.
+Print Assumptions c11_good_run_bound.
+
+Theorem c11_waiting_has_progress : forall w, RInv w -> ~ settled (r_cl w) ->
+  exists a w', rexec w a = Some w' /\ r_good w a = true /\
+    match a with BAnswer _ _ | ADeliver | AOffline | ATerm => True | _ => False end.
+Proof. exact waiting_has_progress. Qed.
+Print Assumptions c11_waiting_has_progress.
+
+Theorem c11_good_run_exists : forall w, RInv w ->
+  exists n w', grun w n w' /\ (n <= rmu w)%nat /\ settled (r_cl w').
+Proof. exact good_run_exists. Qed.
+Print Assumptions c11_good_run_exists.
+
+Theorem c11_answer_run_exists : forall m w, RInv w -> r_alive w = true ->
+  (2 * length (r_c2b w) + length (r_b2c w) = m)%nat ->
+  exists n w', grun w n w' /\ (n <= m)%nat /\ settled (r_cl w').
+Proof. exact answer_run_exists. Qed.
+Print Assumptions c11_answer_run_exists.
+
+Theorem c11_drained_settled : forall w, RInv w ->
+  r_rd w = false \/ (r_alive w = true /\ r_c2b w = [] /\ r_b2c w = []) -> settled (r_cl w).
+Proof. exact drained_settled. Qed.
+Print Assumptions c11_drained_settled.
+
+Theorem c11_offline_settles : forall w, RInv w -> r_rd w = true -> q_ws (r_cl w) <> RClosed ->
+  exists w', rexec w AOffline = Some w' /\ settled (r_cl w') /\
+    forall rid k, In (rid, k) (q_parked (r_cl w)) -> is_wait k = true ->
+      In (rid, E_break, []) (q_done (r_cl w')).
+Proof. exact offline_settles. Qed.
+Print Assumptions c11_offline_settles.
+
+Theorem c11_close_completes_all : forall w keep, RInv w -> q_closed (r_cl w) = false ->
+  exists w1 w2, rexec w (AClose keep) = Some w1 /\ rexec w1 ATerm = Some w2 /\
+    q_parked (r_cl w2) = [] /\
+    forall rid k, In (rid, k) (q_parked (r_cl w)) ->
+      (is_lock k = true -> In (rid, E_closed, []) (q_done (r_cl w2))) /\
+      (is_wait k = true -> In (rid, E_break, []) (q_done (r_cl w2))).
+Proof. exact close_completes_all. Qed.
+Print Assumptions c11_close_completes_all.
+
+(* ---- (d) Ping (sequential slot; F7 is a concurrency defect outside this model) ---- *)
+
+Theorem c11_ping_holds_slot : forall h w rid, rreach h w ->
+  In (rid, PkPing) (q_parked (r_cl w)) -> q_ping (r_cl w) = Some rid.
+Proof. exact ping_holds_slot. Qed.
+Print Assumptions c11_ping_holds_slot.
+
+Theorem c11_ping_one_waiter : forall h w r1 r2, rreach h w ->
+  In (r1, PkPing) (q_parked (r_cl w)) -> In (r2, PkPing) (q_parked (r_cl w)) -> r1 = r2.
+Proof. exact ping_one_waiter. Qed.
+Print Assumptions c11_ping_one_waiter.
+
+Theorem c11_pingresp_completes : forall h w rid, rreach h w -> In (rid, PkPing) (q_parked (r_cl w)) ->
+  sl_pingresp (r_cl w) = (q_complete (r_cl w <| q_ping := None |>) rid E_nil [], HOk).
+Proof. exact pingresp_completes. Qed.
+Print Assumptions c11_pingresp_completes.
+
+Theorem c11_pingresp_ignored : forall q, q_ping q = None -> sl_pingresp q = (q, HOk).
+Proof. exact pingresp_ignored. Qed.
+Print Assumptions c11_pingresp_ignored.
+
+(* ---- non-vacuity: concrete runs (vm_compute) ---- *)
+Check reverse_order_answers.
+Check break_completes_all.
+Check pid_reuse_after_completion.
+Check late_answer_after_quit_hits_new_holder.
+Check forged_suback.
+Check count_mismatch_resets.
+Check pong_after_abandoned_ping.
